@@ -9,6 +9,7 @@ NAME_SCHEMES = [
     lambda i: 'ABCDEFGH'[i],
     lambda i: ['start', 'accept', 'trap1', 'q1', 'P1', 'M1', 'x', 'reject'][i],
     lambda i: ['q1', 'q10', 'q2', 'Q', 'q', 'q0', 'q_accept1', 'q_initial1'][i],
+    lambda i: ['0', '1', '10', '11', '01', '00', '100', '2'][i],
 ]
 ALPHABETS = [['a', 'b'], ['a', 'b'], ['a'], ['0', '1'], ['a', 'b', 'c'], ['x', 'y'], []]
 
